@@ -10,6 +10,8 @@ import (
 	"strings"
 
 	"verif/internal/corpus"
+	"verif/internal/gram"
+	"verif/internal/ref"
 )
 
 // shippedG describes one of the example grammars shipped with pointlander/peg.
@@ -176,3 +178,71 @@ func hostileInputs(r *rand.Rand, samples []string, n int, long bool, longLen ...
 }
 
 var _ = fmt.Sprint
+
+// grammar reads the shipped grammar back into the AST (through the independent reader), so that inputs can be
+// derived from it and the reference interpreter can judge the real-world parsers too.
+func (s shippedG) grammar(repo string) *gram.Grammar {
+	b, err := os.ReadFile(filepath.Join(repo, s.pegPath))
+	if err != nil {
+		return nil
+	}
+	g, err := fromText(string(b))
+	if err != nil {
+		return nil
+	}
+	return g
+}
+
+// derivedInputs: random derivations from the start rule, and fragments derived from arbitrary rules of the grammar
+// (escapes, literals, operators, ...) spliced into the sample texts at random places.
+func derivedInputs(r *rand.Rand, g *gram.Grammar, samples []string, n int) []string {
+	if g == nil || len(g.Rules) == 0 {
+		return nil
+	}
+	alpha := []rune("abcxyz019 _\n\"'\\u{}();=+-*/<>.,")
+	var out []string
+	for i := 0; i < n; i++ {
+		if i%3 == 0 {
+			out = append(out, string(gram.DeriveN(r, g, g.Rules[0].Name, alpha, 1500)))
+			continue
+		}
+		frag := string(gram.DeriveN(r, g, g.Rules[r.Intn(len(g.Rules))].Name, alpha, 200))
+		s := samples[r.Intn(len(samples))]
+		if len(s) > 3000 {
+			o := r.Intn(len(s) - 2000)
+			s = s[o : o+2000]
+		}
+		rs := []rune(s)
+		at := 0
+		if len(rs) > 0 {
+			at = r.Intn(len(rs) + 1)
+			// prefer a place right after a quote or an operator: that is where lexical rules are entered
+			for k := 0; k < 8 && at > 0 && at < len(rs) && !strings.ContainsRune("\"'(=+ ", rs[at-1]); k++ {
+				at = r.Intn(len(rs) + 1)
+			}
+		}
+		out = append(out, string(rs[:at])+frag+string(rs[at:]))
+	}
+	return out
+}
+
+// refJudge compares a shipped parser's result with the reference interpreter on the grammar read back from the
+// shipped .peg file; "" = agrees (or the reference gave up).
+func refJudge(g *gram.Grammar, in string, rr *corpus.Res) string {
+	if g == nil {
+		return ""
+	}
+	it := ref.New(g, in)
+	it.Limit = 3000000
+	ok, _ := it.Parse(g.Rules[0].Name)
+	if it.Over || it.MaxDepth > 400 {
+		return ""
+	}
+	if ok != rr.OK {
+		return fmt.Sprintf("verdict %v, PEG semantics of the shipped grammar %v", rr.OK, ok)
+	}
+	if ok && tokStrings(rr.Toks) != refTokStrings(it.Toks) {
+		return "the token sequence is not the post-order record of the derivation the shipped grammar defines"
+	}
+	return ""
+}
